@@ -417,3 +417,124 @@ def c20_p3(ctx):
             yield bad("C20-P3", key, at(f, s["span"]["line"]), "sent_file_size updated as %s - not an accepted high-water-mark idiom (max(old, offset + bytes read)) %s" % (txt[:200], why))
     if n == 0:
         raise Anchor("C20-P3", "writers of SendTransaction.sent_file_size")
+
+
+# ================================================================ C13-Q1
+ACTION_OP = {
+    "CreateFile": ("create_file", 1),
+    "DeleteFile": ("delete_file", 1),
+    "RenameFile": ("rename_file", 2),
+    "AppendFile": ("append_file", 2),
+    "ReplaceFile": ("replace_file", 2),
+    "CreateDirectory": ("create_directory", 1),
+    "RemoveDirectory": ("remove_directory", 1),
+    "DenyFile": ("delete_file", 1),
+    "DenyDirectory": ("remove_directory", 1),
+}
+
+
+def _action_switches(ctx, f, tyname):
+    """(block, term, {variant: target}) of switches on the discriminant of a value whose type is `tyname`."""
+    eb = ExprBuilder(ctx.prog, f)
+    for b in f.live_blocks():
+        t = f.blocks[b]["term"]
+        if t["k"] != "switch":
+            continue
+        e = eb.operand(t["discr"])
+        if e[0] != "discr":
+            continue
+        inner = e[1]
+        ty = inner[2] if inner[0] == "place" else (inner[3] if inner[0] == "proj" else "")
+        if not isinstance(ty, str) or not ty.replace("&", "").strip().endswith(tyname):
+            continue
+        names = ctx.prog.variant_names(ty)
+        if names:
+            yield b, t, {names.get(v, str(v)): tb for v, tb in t["targets"]}
+
+
+@rule("C13", "C13-Q1", 36, "dispatch tables: each action's arm reports only that action's status type, runs only that action's own operation on the request's own names, and reports Successful only on the Ok edge of that operation")
+def c13_q1(ctx):
+    from core import dominators
+    from common import simp, sstr
+
+    pr = [f for f in ctx.prog.by_norm.values() if f.norm.endswith("filestore::FileStore::process_request") and f.crate == "cfdp_core"]
+    if len(pr) != 1:
+        raise Anchor("C13-Q1", "FileStore::process_request (trait default)")
+    tables = [(pr[0], "FileStoreAction")]
+    for nm, ty in (("FileStoreStatus::get_not_performed", "FileStoreAction"), ("FileStoreStatus::get_status", "FileStoreAction"), ("FileStoreStatus::as_u8", "FileStoreStatus")):
+        tables.append((ctx.one("C13-Q1", nm), ty))
+    for f, ty in tables:
+        sws = list(_action_switches(ctx, f, ty))
+        if len(sws) != 1:
+            yield undecided("C13-Q1", "%s:dispatch" % short(f.norm), at(f), "expected one dispatch on %s, found %d" % (ty, len(sws)))
+            continue
+        b, t, arms = sws[0]
+        dom = dominators(f)
+        eb = ExprBuilder(ctx.prog, f)
+        missing = set(ACTION_OP) - set(arms)
+        if missing:
+            yield bad("C13-Q1", "%s:arms" % short(f.norm), at(f, t["span"]["line"]), "no dedicated arm for %s" % sorted(missing))
+        for var, tb in sorted(arms.items()):
+            blocks = [x for x in f.live_blocks() if tb in dom.get(x, ())]
+            key = "%s:%s" % (short(f.norm), var)
+            problems = []
+            ops = []
+            for x in blocks:
+                blk = f.blocks[x]
+                for s in blk["stmts"]:
+                    if s["k"] != "assign":
+                        continue
+                    rv = s["rv"]
+                    if rv["k"] == "agg" and rv["agg"] == "adt" and strip_generics(rv["adt"]).endswith("FileStoreStatus") and rv.get("variant") != var:
+                        problems.append("arm %s builds FileStoreStatus::%s" % (var, rv.get("variant")))
+                    if rv["k"] == "agg" and rv["agg"] == "adt" and rv.get("variant") == "Successful" and f is pr[0]:
+                        # must be dominated by the Ok edge of the arm's own operation
+                        opname = ACTION_OP[var][0]
+                        okedge = False
+                        for y in blocks:
+                            ty_ = f.blocks[y]["term"]
+                            if ty_["k"] != "switch":
+                                continue
+                            c = eb.operand(ty_["discr"])
+                            if c[0] == "discr" and c[1][0] == "call" and (callee_name(c[1]) or "").endswith("FileStore::" + opname):
+                                for v, tgt in ty_["targets"]:
+                                    if v == 0 and tgt in dom.get(x, ()):
+                                        okedge = True
+                        if not okedge:
+                            problems.append("Successful is reported outside the Ok edge of %s" % opname)
+                    e = eb.rvalue(rv)
+                    for u in walk(e):
+                        if u[0] == "uneval" and "FileStoreAction::" in u[1]:
+                            uv = u[1].split("FileStoreAction::")[1].split("::")[0]
+                            if uv != var:
+                                problems.append("arm %s encodes the action code of %s" % (var, uv))
+                tt = blk["term"]
+                if tt["k"] == "call":
+                    d, r, _ = ctx.prog.callee_of(tt)
+                    cal = d or ""
+                    if cal.startswith("cfdp_core::filestore::FileStore::") and cal.split("::")[-1] not in ("get_native_path",):
+                        ops.append((cal.split("::")[-1], [sstr(a) for a in eb.call(x, tt)[3][1:]]))
+            if f is pr[0]:
+                want, nargs = ACTION_OP.get(var, ("?", 0))
+                if [o for o, _ in ops] != [want]:
+                    problems.append("arm %s runs %s (expected exactly %s)" % (var, [o for o, _ in ops], want))
+                else:
+                    a = ops[0][1]
+                    exp = ["FileStore::get_native_path(self, request.first_filename)", "FileStore::get_native_path(self, request.second_filename)"][:nargs]
+                    if a != exp:
+                        problems.append("%s is applied to %s, not to the request's own name(s)" % (want, a))
+            if problems:
+                for i, p in enumerate(sorted(set(problems))):
+                    yield bad("C13-Q1", key + (":%d" % i if i else ""), at(f, t["span"]["line"]), p)
+            else:
+                yield ok("C13-Q1", key, at(f, t["span"]["line"]), {"operation": ops[0][0] if ops else None})
+    # the response names the request's own files
+    f = pr[0]
+    for _f, b, j, s in agg_sites([f], "FileStoreResponse"):
+        e = simp(ExprBuilder(ctx.prog, f).rvalue(s["rv"]))
+        fl = dict(zip(e[4], e[5]))
+        okn = expr_str(fl.get("first_filename", ("other",))) == "request.first_filename" and expr_str(fl.get("second_filename", ("other",))) == "request.second_filename"
+        if okn:
+            yield ok("C13-Q1", "process_request:response-names", at(f, s["span"]["line"]), "first/second filename copied from the request")
+        else:
+            yield bad("C13-Q1", "process_request:response-names", at(f, s["span"]["line"]), "response names: %s / %s" % (expr_str(fl.get("first_filename", ("other",))), expr_str(fl.get("second_filename", ("other",)))))
